@@ -491,6 +491,10 @@ func (s *Sim) Kill(node int) {
 	}
 }
 
+// Revive is a no-op marker: new tasks of a killed node are created in its new epoch
+// automatically; it only logs the restart boundary.
+func (s *Sim) Revive(node int) { s.logf("revive", int64(node), 0, "") }
+
 // NodeAlive reports whether the calling goroutine's task belongs to a live epoch.
 func TaskDead() bool {
 	s := cur.Load()
